@@ -108,6 +108,9 @@ class _R:
     def __len__(self):
         return len(range(self.start.__index__() if isinstance(self.start, symx.Sym) else self.start, self.stop.__index__() if isinstance(self.stop, symx.Sym) else self.stop))
 
+    def __getitem__(self, i):
+        return list(self)[i]
+
 
 def setup_range():
     shims.install_core()
@@ -116,6 +119,13 @@ def setup_range():
     import odc.geo.geobox as gbx
 
     gbx.range = _R
+
+
+def setup_range_geom():
+    setup_range()
+    from .c16 import setup_fakegeom
+
+    setup_fakegeom()
 
 
 def h_check_linear(kind):
@@ -341,6 +351,67 @@ def h_footprint_buffer():
 
 
 
+def h_range_world_bbox(lin):
+    """range_from_bbox with a box given in the raster's CRS on rotated / sheared / mirrored grids:
+    the tile row and column of EVERY corner of the box that falls inside the image is listed (a
+    box whose extremes in pixel space are its other two corners included)"""
+    from affine import Affine
+
+    import odc.geo.geobox as gbx
+    from odc.geo.geom import BoundingBox
+
+    from .c02 import LIN
+
+    a, b, d, e = LIN[lin]
+    NY, NX = Int("NY", 1), Int("NX", 1)
+    g = gbx.GeoBox((NY, NX), Affine(rconst(a), rconst(b), Real("c"), rconst(d), rconst(e), Real("f")), "epsg:3857")
+    ty_, tx = 16, 16
+    gbt = gbx.GeoboxTiles(g, (ty_, tx))
+    l, bt, w, h = Real("left"), Real("bottom"), Real("w"), Real("h")
+    assume(And(w >= 0, h >= 0))
+    yy, xx = gbt.range_from_bbox(BoundingBox(l, bt, l + w, bt + h, "epsg:3857"))
+    for k, (x, y) in enumerate(((l, bt), (l + w, bt), (l + w, bt + h), (l, bt + h))):
+        px, py = g.wld2pix(x, y)
+        px, py = ex(px), ex(py)
+        inside = And(0 < px, px < NX, 0 < py, py < NY)
+        col, row = symx.s_floor(px), symx.s_floor(py)
+        # (a corner exactly on a pixel boundary belongs to the lower tile too; strict interior only)
+        strict = And(inside, px != col, py != row)
+        prove(f"corner{k}_tile_row_listed", And(yy.start * ty_ <= row, row < yy.stop * ty_), when=strict)
+        prove(f"corner{k}_tile_col_listed", And(xx.start * tx <= col, col < xx.stop * tx), when=strict)
+
+
+def h_tiles_geometry(nrect):
+    """GeoboxTiles.tiles(geometry) with a (multi-part) stand-in geometry in the raster's CRS:
+    only tiles whose footprint meets a part are returned -- nothing for a geometry entirely
+    outside the raster --, every tile meeting a part in positive area is"""
+    from affine import Affine
+
+    import odc.geo.geobox as gbx
+
+    from .c14 import _Rects
+
+    g = gbx.GeoBox((48, 64), Affine(rconst(10), 0.0, rconst(0), 0.0, rconst(-10), rconst(480)), "epsg:3857")  # world box [0,640] x [0,480]
+    gbt = gbx.GeoboxTiles(g, (16, 16))  # 3 x 4 tiles of 160 x 160
+    rects = []
+    for k in range(nrect):
+        l, b, w, h = Real(f"l{k}"), Real(f"b{k}"), Real(f"w{k}"), Real(f"h{k}")
+        assume(And(w > 0, h > 0, w <= 100, h <= 100, l >= -300, l <= 900, b >= -300, b <= 700))
+        rects.append((l, b, l + w, b + h))
+    q = _Rects(rects, g.crs)
+    got = list(gbt.tiles(q))
+    jr, jc = Int("jr", 0, 2), Int("jc", 0, 3)
+    x0, x1 = 160 * jc, 160 * (jc + 1)
+    y1, y0 = 480 - 160 * jr, 480 - 160 * (jr + 1)
+    listed = Or(*[And(jr == t[0], jc == t[1]) for t in got]) if got else False
+    meets_area = Or(*[And(x1 > ex(l), x0 < ex(r), y1 > ex(b), y0 < ex(t)) for l, b, r, t in rects])
+    apart = And(*[Or(x1 < ex(l), x0 > ex(r), y1 < ex(b), y0 > ex(t)) for l, b, r, t in rects])
+    prove("every_tile_meeting_a_part_is_returned", listed, when=meets_area)
+    prove("only_tiles_meeting_the_geometry_are_returned", Not(listed) if isinstance(listed, symx.Sym) else not listed, when=apart)
+    prove("returned_tiles_exist", all(0 <= t[0] < 3 and 0 <= t[1] < 4 for t in got))
+
+
+
 TS_Q = [(1, 1), (3, 7), (16, 256)]
 TS_T = TS_Q + [(256, 16), (2, 2), (512, 512), (7, 1)]
 GI_Q = [dict(k="1", mx=1, n_dst=4, n_src=4, axis="x"), dict(k="2", mx=1, n_dst=2, n_src=4, axis="y"), dict(k="1", mx=-1, n_dst=4, n_src=3, axis="x"), dict(k="1/2", mx=1, n_dst=4, n_src=2, axis="y")]
@@ -365,6 +436,14 @@ OBLIGATIONS = [
     Ob("Q5_footprint_buffer", h_footprint_buffer, fixed(), descr="footprint(crs, buffer=<pixels>) buffers outwards by that many source pixels whatever the signs of the resolution",
        functions=("odc.geo.geobox.GeoBoxBase.footprint", "odc.geo.geobox.GeoBoxBase._reproject_resolution"), bounds="axis-aligned symbolic affine (either sign per axis), symbolic buffer > 0",
        stubs=("vertex-list geometry recording buffer(); to_crs/dropna pass-through (the replay records shapely's buffer call)",), setup=setup_footprint),
+    Ob("Q6_range_world_bbox", h_range_world_bbox, fixed(*[dict(lin=k) for k in ("north_up", "mirrored", "rot", "shear")]),
+       descr="range_from_bbox with a box in the raster's CRS on mirrored / rotated / sheared grids: the tile row and column of every corner of the box inside the image is listed",
+       functions=("odc.geo.geobox.GeoboxTiles.range_from_bbox", "odc.geo.geobox.GeoBoxBase.project", "odc.geo.roi.Tiles.locate"), bounds="linear part from 4 families, origin / image size / box symbolic; 16-pixel tiles",
+       stubs=("symbolic-bound range()", "vertex-list polygon"), setup=setup_range_geom, timeout_ms=20000),
+    Ob("Q7_tiles_geometry", h_tiles_geometry, tiered([dict(nrect=1)], [dict(nrect=1), dict(nrect=2)]),
+       descr="tiles(geometry) with a (multi-part) stand-in geometry: only tiles meeting a part (none for a geometry outside the raster), every tile meeting one in positive area",
+       functions=("odc.geo.geobox.GeoboxTiles.tiles", "odc.geo.geobox.GeoboxTiles.range_from_bbox"), bounds="48 x 64 raster in 3 x 4 tiles; parts up to 100 x 100 units anywhere from far outside to inside",
+       stubs=("union-of-rectangles geometry answering to_crs / boundingbox / disjoint exactly", "vertex-list tile footprints"), setup=setup_range_geom, timeout_ms=20000),
     Ob("Q2_disjoint_no_error", h_disjoint_no_error, fixed(dict(axis="x"), dict(axis="y")), descr="same-CRS rasters that do not overlap (apart or touching): no error and no dependencies",
        functions=("odc.geo.geobox.GeoboxTiles.grid_intersect",), bounds="gap >= 0 symbolic, either side", setup=setup),
 ]
